@@ -145,7 +145,6 @@ class Sim:
         me = self.cur
         if me is None or me._ident != _thread.get_ident():
             if _thread.get_ident() in _ZOMBIES:
-                _ZOMBIES.discard(_thread.get_ident())
                 # a thread of an EARLIER simulation that could not be unwound
                 # when that simulation ended (it was blocked in a real system
                 # call, e.g. waiting for a real child process) and wakes up
@@ -501,6 +500,7 @@ class SimThread:
             if sim.killed:
                 return
             self._ident = _thread.get_ident()
+            _ZOMBIES.discard(self._ident)    # (an identifier may be re-used)
             if sim.line_files:
                 sys.settrace(_make_tracer(sim))
             try:
